@@ -262,6 +262,81 @@ fn one_case(rep: &mut Report, idx: u64, with_exec: bool, ep: &str, state: &str, 
     rep.end_history();
 }
 
+
+/// Operations scheduled WITH a predecessor: the descriptor cannot shed or swap the predecessor.
+fn predecessor_cases(cfg: &Cfg, rep: &mut Report) {
+    let mut k = 0u64;
+    for with_exec in [false, true] {
+        for ep in EPS {
+            for pred_done in [false, true] {
+                for shape in ["proper", "zero_pred", "other_pred"] {
+                    k += 1;
+                    let h = 700_000 + k;
+                    if h % cfg.nshards as u64 != cfg.shard as u64 || !cfg.runs(h) {
+                        continue;
+                    }
+                    rep.begin_history(h);
+                    let su = setup(with_exec, 100);
+                    let e = &su.w.env;
+                    let zero = BytesN::from_array(e, &[0u8; 32]);
+                    let salt = BytesN::from_array(e, &[7u8; 32]);
+                    // predecessor Q: a call on a counting target, scheduled by the proposer
+                    let target = e.register(CountTarget, ());
+                    e.mock_all_auths();
+                    let q: BytesN<32> = invoke(e, &su.c, "schedule_op", args!(e, target, Symbol::new(e, "bump"), args!(e, 1u32), zero.clone(), zero.clone(), 5u32, su.p)).expect("schedule Q");
+                    let a = ep_args(&su, ep);
+                    e.mock_all_auths();
+                    let r: Result<BytesN<32>, Fail> = invoke(e, &su.c, "schedule_op", args!(e, su.c, Symbol::new(e, ep), a.clone(), q.clone(), salt.clone(), 5u32, su.p));
+                    let id = r.expect("schedule op with predecessor");
+                    su.w.set_ledger(su.w.ledger() + 5);
+                    if pred_done {
+                        e.mock_all_auths();
+                        let r: Result<Val, Fail> = invoke(e, &su.c, "execute_op", args!(e, target, Symbol::new(e, "bump"), args!(e, 1u32), zero.clone(), zero.clone(), Some(su.x.clone())));
+                        r.expect("execute Q");
+                    }
+                    let executor = if with_exec { Some(su.x.clone()) } else { None };
+                    let pred = match shape {
+                        "proper" => q.clone(),
+                        "zero_pred" => zero.clone(),
+                        _ => BytesN::from_array(e, &[9u8; 32]),
+                    };
+                    let metas = [OperationMeta { predecessor: pred.clone(), salt: salt.clone(), executor: executor.clone() }];
+                    let auth = build_auth(&su, ep, &a, Some(&metas), if with_exec { Some((&su.x, &pred, &salt)) } else { None });
+                    let st0 = op_state(&su, &id);
+                    // authorization entries only serve the very next invocation: install them last
+                    e.set_auths(&auth);
+                    su.w.reset_budget();
+                    if std::env::var("VERIF_DEBUG").is_ok() && pred_done && shape == "proper" {
+                        let mut ctxs: SVec<Context> = SVec::new(e);
+                        ctxs.push_back(Context::Contract(ContractContext { contract: su.c.clone(), fn_name: Symbol::new(e, ep), args: a.clone() }));
+                        let mut mv: SVec<OperationMeta> = SVec::new(e);
+                        mv.push_back(metas[0].clone());
+                        let r = e.try_invoke_contract_check_auth::<soroban_sdk::Error>(&su.c, &BytesN::from_array(e, &[1u8; 32]), mv.into_val(e), &ctxs);
+                        eprintln!("DEBUG {ep} with_exec={with_exec}: direct __check_auth -> {r:?} ; q state {}", op_state(&su, &q));
+                        e.set_auths(&auth);
+                    }
+                    let got: Result<Val, Fail> = invoke(e, &su.c, ep, a.clone());
+                    rep.evaluations += 1;
+                    let st1 = op_state(&su, &id);
+                    let label = format!("exec_cfg={with_exec}/{ep}/scheduled-with-predecessor(done={pred_done})/{shape}");
+                    rep.op(format!("case {label}: state {st0}->{st1}, call -> {}", tag(&got)));
+                    rep.case(format!("{label}/{}", tag(&got)));
+                    let may_pass = pred_done && shape == "proper";
+                    if got.is_ok() {
+                        rep.check("bypass", may_pass && st0 == 2 && st1 == 3, &format!("C09/bypass/{ep}/passed-around-predecessor/{shape}"), || {
+                            format!("{label}: admin-only call succeeded; operation scheduled with predecessor Q (done={pred_done}), descriptor named {shape}; state {st0}->{st1}")
+                        });
+                    }
+                    if may_pass {
+                        rep.check("ref", got.is_ok(), &format!("C09/ref/{ep}/proper-path-with-done-predecessor-refused"), || format!("{label}: {got:?} raw={} panic={}", crate::world::last_error(), crate::last_panic()));
+                    }
+                    rep.end_history();
+                }
+            }
+        }
+    }
+}
+
 /// Direct probing of `__check_auth` with several contexts against fewer/more descriptors.
 fn multi_context(cfg: &Cfg, rep: &mut Report) {
     if cfg.shard != 0 && !cfg.thorough() {
@@ -425,9 +500,10 @@ fn role_gates(cfg: &Cfg, rep: &mut Report) {
 }
 
 pub fn run(cfg: &Cfg, rep: &mut Report) {
-    rep.rule = "Exhaustive sweep (split over shards): executors configured? x 6 admin-only entry points x operation state {unset,waiting,ready,done,cancelled} x payload shape {proper,empty,two,wrong_salt,wrong_pred,no_entry,other_call} x executor variant {proper,absent,not_executor,executor_unsigned}, each an end-to-end call on a fresh controller (admin = itself) with a hand-built authorization entry whose signature is the descriptor list; plus role gates of schedule/cancel/execute (caller x signed), direct __check_auth probes with 1-3 contexts against 0..n+1 descriptors, and a foreign-contract call (token transfer from the controller). Distinct case = the tuple + outcome; none is trivial.".into();
+    rep.rule = "Exhaustive sweep (split over shards): executors configured? x 6 admin-only entry points x operation state {unset,waiting,ready,done,cancelled} x payload shape {proper,empty,two,wrong_salt,wrong_pred,no_entry,other_call} x executor variant {proper,absent,not_executor,executor_unsigned}, each an end-to-end call on a fresh controller (admin = itself) with a hand-built authorization entry whose signature is the descriptor list; plus role gates of schedule/cancel/execute (caller x signed), operations scheduled with a (pending / done) predecessor against descriptors naming the right, no or another predecessor, direct __check_auth probes with 1-3 contexts against 0..n+1 descriptors, and a foreign-contract call (token transfer from the controller). Distinct case = the tuple + outcome; none is trivial.".into();
     systematic(cfg, rep);
     role_gates(cfg, rep);
+    predecessor_cases(cfg, rep);
     multi_context(cfg, rep);
     foreign_context(cfg, rep);
     rep.floor_on("proper_path_ok", 1, &["proper_path_ok"]);
